@@ -115,6 +115,12 @@ fn run_cli(tuc: &str, shim: Option<&str>, c: &Case, timeout: Duration) -> (Strin
                     cmd.env("FIO_WSHORT", v);
                     use_shim = true;
                 }
+                "werrno" => {
+                    cmd.env("FIO_WERRNO", v);
+                }
+                "rerrno" => {
+                    cmd.env("FIO_RERRNO", v);
+                }
                 _ => {}
             }
         }
